@@ -315,7 +315,12 @@ class MaximizeMergeMatching(InstanceMatchingAlgorithm):
                 new_score = self.new_combination_score(
                     pred_labels_, pred_label, ref_label, unmatched_instance_pair
                 )
-                if new_score > score_ref[ref_label]:
+                # strictly better in the preferred direction of the matching metric
+                if (
+                    new_score < score_ref[ref_label]
+                    if self._matching_metric.decreasing
+                    else new_score > score_ref[ref_label]
+                ):
                     labelmap.add_labelmap_entry(pred_label, ref_label)
                     score_ref[ref_label] = new_score
             elif self._matching_metric.score_beats_threshold(
